@@ -145,10 +145,11 @@ def build(rng, tree, n_tables, opts):
         layout[i]["offset"] = pos
         pos += layout[i]["size"]
         if rng.random() < opts["stale_rate"]:
-            # a stale copy of this table index with a lower sequence number and different content
-            st_off = pos
-            pos += ALIGN
-            stale.append((i, st_off, rng.randrange(0, seqs[i])))
+            # stale generations of this table index (lower sequence numbers, different content); the object table lists all generations in any order
+            for st_seq in rng.sample(range(0, seqs[i]), min(seqs[i], rng.choice([1, 1, 2, 3]))):
+                st_off = pos
+                pos += ALIGN
+                stale.append((i, st_off, st_seq))
     for fo in file_objects:
         fo["offset"] = pos
         fo["alloc"] = -(-max(len(fo["data"]), 1) // ALIGN) * ALIGN
